@@ -310,6 +310,16 @@ impl Visitor<Diagnostic> for RuleGraphReferenceableElements {
         res
     }
 
+    fn visit_structure_initialization_declaration(
+        &mut self,
+        node: &StructureInitializationDeclaration,
+    ) -> Result<Self::Value, Diagnostic> {
+        // Without a node the declaration would not be among the sorted
+        // names and would be left out of the sorted library
+        self.declarations.add_node(&node.type_name.name);
+        node.recurse_visit(self)
+    }
+
     // POU declarations
 
     fn visit_function_declaration(
